@@ -45,8 +45,8 @@ contract(f"{EP}::TunnelEndpoint.send", "send", vars=VARS, instances=SHAPES, call
                            "args[0] == circ._hops[0].peer._address and args[1] == circ.circuit_id and args[3] == ('0.0.0.0', 0)",
                            "(args[2] == address and args[4] == packet) or (n_queued >= 1 and args[2] == qa1 and args[4] == qp1)"
                            " or (n_queued == 2 and args[2] == qa2 and args[4] == qp2)"],
-             "find_circuits": ["ev.kwargs['exit_flags'] == [EXIT_IPV8]", "ev.kwargs['hops'] == self.hops", "ev.kwargs['state'] is None"],
-             "create_circuit": ["anonymised(self, packet) and n_found == 0", "args[0] == self.hops", "ev.kwargs['exit_flags'] == [EXIT_IPV8]"]},
+             "find_circuits": ["list(ev.kwargs['exit_flags']) == [EXIT_IPV8]", "ev.kwargs['hops'] == self.hops", "ev.kwargs['state'] is None"],
+             "create_circuit": ["anonymised(self, packet) and n_found == 0", "args[0] == self.hops", "list(ev.kwargs['exit_flags']) == [EXIT_IPV8]"]},
          ensures=[
              # dropped when no tunnel community is attached
              "implies(anonymised(self, packet) and not attached, len(trace()) == 0 and len(self.send_queue) == n_queued)",
@@ -90,14 +90,16 @@ contract(f"{EP}::TunnelEndpoint.notify_listeners", "notify_listeners.origin-filt
 
 # find_circuits: every returned circuit passes the four filters
 contract(f"{TC}::TunnelCommunity.find_circuits", "find_circuits.filters",
-         vars={"f1": INT, "f2": INT, "h1": HOP(flags=EXPR("[f1, f2][:n_flags]")), "c1": CIRCUIT("[h1]"), "c2": CIRCUIT("[]"),
+         # c1 has TWO hops whose flags differ freely: what counts is the LAST hop (the exit), not the first relay
+         vars={"f1": INT, "f2": INT, "g1": INT, "h0": HOP(flags=EXPR("[g1][:n_first]")), "h1": HOP(flags=EXPR("[f1, f2][:n_flags]")),
+               "c1": CIRCUIT("[h0, h1]"), "c2": CIRCUIT("[]"),
                "self": OBJ(f"{TC}::TunnelCommunity", circuits=EXPR("{c1.circuit_id: c1, c2.circuit_id: c2}")), "hops": INT, "st": OPT(STR)},
-         instances=[{"n_flags": n} for n in (0, 1, 2)], requires=["c1.circuit_id != c2.circuit_id"],
+         instances=[{"n_flags": n, "n_first": m} for n in (0, 1, 2) for m in (0, 1)], requires=["c1.circuit_id != c2.circuit_id"],
          call="self.find_circuits(exit_flags=[EXIT_IPV8], hops=hops, state=st)", raises=[],
-         ensures=["all(c.goal_hops == hops and c.ctype == 'DATA' and (st is None or c.state == st)"
-                  " and EXIT_IPV8 in c.exit_flags for c in result)",
-                  "all((c in result) == (c.goal_hops == hops and c.ctype == 'DATA' and (st is None or c.state == st)"
-                  " and EXIT_IPV8 in c.exit_flags) for c in [c1, c2])"],
+         ensures=["all(c.goal_hops == hops and c.ctype == 'DATA' and (st is None or c.state == st) for c in result)",
+                  "(c1 in result) == (c1.goal_hops == hops and c1.ctype == 'DATA' and (st is None or c1.state == st)"
+                  " and EXIT_IPV8 in [f1, f2][:n_flags])",
+                  "c2 not in result"],
          bounded="two circuits in the table", note="circuits handed to the tunnel endpoint end in an IPv8-capable exit and have the configured length")
 
 # ---------------------------------------------------------------------------------------------------------------------
@@ -139,3 +141,12 @@ contract("ipv8/community.py::Community.__init__", "anonymize-opts-in-at-construc
                   "implies(not anon, len(ep.settings) == 0)"],
          covers=["anon and tc is None", "anon and tc is not None", "not anon"],
          note="after construction the endpoint treats the overlay's prefix as anonymised iff the overlay asked for it")
+
+# the hold-queue of an anonymised overlay stays bounded whatever happens to the endpoint's configuration
+contract(f"{EP}::TunnelEndpoint.set_tunnel_community", "set_tunnel_community.queue-stays-bounded",
+         vars={"TCO": TCOMM, "qa1": ADDRESS, "qp1": BYTES, "qa2": ADDRESS, "qp2": BYTES, "self": SELF, "newtc": OPT(EFFECT("tc2")), "h": INT},
+         instances=[{"attached": a, "n_queued": q} for a in (False, True) for q in (0, 2)],
+         call="self.set_tunnel_community(newtc, h)", raises=[],
+         ensures=["self.send_queue.maxlen == 100", "self.tunnel_community is newtc", "self.hops == h", "len(self.send_queue) <= n_queued"],
+         bounded="0 or 2 queued packets",
+         note="reconfiguring (attach, detach, change of hop count) never turns the bounded queue into an unbounded one")
